@@ -1,32 +1,37 @@
 use rusty_linter::core::CastVariant;
 use rusty_parser::TypeQualifier;
+use rusty_variant::Variant;
 
 use crate::RuntimeError;
 use crate::interpreter::interpreter_trait::InterpreterTrait;
 
 pub fn and<T: InterpreterTrait>(interpreter: &mut T) -> Result<(), RuntimeError> {
-    let a = interpreter
-        .registers()
-        .get_a()
-        .cast(TypeQualifier::PercentInteger)?;
-    let b = interpreter
-        .registers()
-        .get_b()
-        .cast(TypeQualifier::PercentInteger)?;
-    interpreter.registers_mut().set_a(a.and(b)?);
-    Ok(())
+    bitwise(interpreter, Variant::and)
 }
 
 pub fn or<T: InterpreterTrait>(interpreter: &mut T) -> Result<(), RuntimeError> {
-    let a = interpreter
-        .registers()
-        .get_a()
-        .cast(TypeQualifier::PercentInteger)?;
-    let b = interpreter
-        .registers()
-        .get_b()
-        .cast(TypeQualifier::PercentInteger)?;
-    interpreter.registers_mut().set_a(a.or(b)?);
+    bitwise(interpreter, Variant::or)
+}
+
+/// AND and OR work on 16 bits when both operands fit an INTEGER,
+/// on 32 bits when they fit a LONG; anything else is an overflow.
+fn bitwise<T: InterpreterTrait>(
+    interpreter: &mut T,
+    op: fn(Variant, Variant) -> Result<Variant, rusty_variant::VariantError>,
+) -> Result<(), RuntimeError> {
+    let a = interpreter.registers().get_a();
+    let b = interpreter.registers().get_b();
+    let result = match (
+        a.clone().cast(TypeQualifier::PercentInteger),
+        b.clone().cast(TypeQualifier::PercentInteger),
+    ) {
+        (Ok(a), Ok(b)) => op(a, b)?,
+        _ => op(
+            a.cast(TypeQualifier::AmpersandLong)?,
+            b.cast(TypeQualifier::AmpersandLong)?,
+        )?,
+    };
+    interpreter.registers_mut().set_a(result);
     Ok(())
 }
 
